@@ -1400,6 +1400,7 @@ def oracle(smi, ops):
     stereo_unsettled = set()
     attr_in_txn, edit_in_txn = {}, {}
     fix_after_attr, edit_after_fix = {}, {}   # attr write < public fix_structure() < structural edit, inside one block
+    fix_in_txn, edit_after_any_fix = {}, {}   # public fix_structure() < structural edit, attr write anywhere in the block
     for i, op in enumerate(ops):
         name, o = op[0], op[1]
         if o >= len(objs):
@@ -1420,6 +1421,7 @@ def oracle(smi, ops):
             enter_state[o] = (wire.mol_to_line(objs[o]), observe(objs[o]))
             attr_in_txn[o] = edit_in_txn[o] = False
             fix_after_attr[o] = edit_after_fix[o] = False
+            fix_in_txn[o] = edit_after_any_fix[o] = False
         if name in ('setCharge', 'setRadical'):
             if o not in enter_state:
                 return None  # outside a transaction: caller's responsibility, out of the property's domain
@@ -1430,6 +1432,10 @@ def oracle(smi, ops):
                 edit_after_fix[o] = True
         if name == 'fixStructure' and o in enter_state and op[2] and attr_in_txn.get(o):
             fix_after_attr[o] = True
+        if name == 'fixStructure' and o in enter_state and op[2]:
+            fix_in_txn[o] = True
+        if name in ('addAtom', 'addBond', 'delAtom', 'delBond') and o in enter_state and fix_in_txn.get(o):
+            edit_after_any_fix[o] = True
         if name in ('addAtom', 'addBond', 'delAtom', 'delBond') and len(op) > 2 and op[-1] == 1:
             return None  # _skip_calculation is private API
         if name in ('calcLabels', 'flush', 'fixStructure') and False:
@@ -1563,7 +1569,8 @@ def oracle(smi, ops):
             if name == 'exitOk' and j == o and attr_in_txn.get(o) and edit_in_txn.get(o):
                 # mechanism: a public fix_structure() between the attribute write and a later edit resets the pending set
                 # and recomputes the hydrogens for the intermediate attribute value; the exit only compares with the snapshot
-                ctxs = 'attr-write+public-fix_structure+edit-in-txn' if edit_after_fix.get(o) else 'attr-write+edit-in-txn'
+                ctxs = ('attr-write+public-fix_structure+edit-in-txn' if edit_after_fix.get(o) else
+                        'public-fix_structure+attr-write+edit-in-txn' if edit_after_any_fix.get(o) else 'attr-write+edit-in-txn')
             if stale:
                 return (f'C13/stale-cache/{ctxs}', f'after op {i} {op}: memoised {stale[:3]} of object {j} differ from a rebuilt molecule')
             if lab:
@@ -1699,6 +1706,8 @@ FINDING_TRACES = [
     {'seed': 'CCO.CC', 'ops': [['enter', 0], ['setCharge', 0, 3, -1], ['addBond', 0, 4, 1, 1, 0], ['exitOk', 0]]},
     {'seed': 'C1CC1C1CC1', 'ops': [['enter', 0], ['setRadical', 0, 6, 1], ['fixStructure', 0, 1], ['setRadical', 0, 6, 0],
                                    ['addBond', 0, 5, 1, 1, 0], ['exitOk', 0]]},
+    {'seed': 'CCO.CC', 'ops': [['enter', 0], ['addAtom', 0, 7, -1, 0], ['fixStructure', 0, 1], ['setCharge', 0, 6, 1],
+                               ['addBond', 0, 4, 1, 1, 0], ['exitOk', 0]]},
     {'seed': 'C[Mg]Br', 'ops': [['addBond', 0, 1, 3, 8, 0], ['copy', 0, 0, 0]]},
     {'seed': 'C[Mg]Br', 'ops': [['addBond', 0, 1, 3, 8, 0], ['enter', 0]]},
     {'seed': 'CCO', 'ops': [['enter', 0], ['addAtom', 0, 6, 10, 0], ['delAtom', 0, 10, 0], ['exitOk', 0], ['addAtom', 0, 7, -1, 0],
